@@ -1112,14 +1112,6 @@ impl Value {
         unsafe { &*(self.0 as *const ChannelObject) }
     }
 
-    unsafe fn get_channel_mut<'a>(&self, _vm: &mut VmGreenThread) -> &'a mut ChannelObject
-    where
-        Self: Sized,
-    {
-        self.check_type(_vm, ValueTag::Channel);
-        unsafe { &mut *(self.0 as *mut ChannelObject) }
-    }
-
     fn get_variant<'a>(&self, _vm: &VmGreenThread) -> &'a EnumObject
     where
         Self: Sized,
@@ -1141,10 +1133,6 @@ impl Value {
 }
 
 impl Value {
-    fn deep_copy(self, vm: &mut VmGreenThread) -> Value {
-        self.deep_copy_helper(vm, &mut std::collections::HashMap::new())
-    }
-
     // `copies` maps the address of every object copied so far to its copy: an object that is
     // reached twice (shared, or part of a cycle) is copied once.
     // A copy is allocated and recorded before its children are copied into it. The collector
@@ -1487,11 +1475,146 @@ impl ArrayObject {
     }
 }
 
+// TODO: instead of Arc Mutex VecDeque there's probably something much better
+type ChannelData = Arc<Mutex<VecDeque<Message>>>;
+
 #[repr(C)]
 struct ChannelObject {
     header: ObjectHeader,
-    // TODO: instead of Arc Mutex VecDeque there's probably something much better
-    data: Arc<Mutex<VecDeque<Value>>>,
+    data: ChannelData,
+}
+
+/// A message in a channel: a snapshot of the written value, taken when it is written. It is owned
+/// by the channel and independent of every thread's heap, so the writer may change, collect or
+/// drop its objects afterwards. Each object of the value is a node and a reference to an object
+/// is the index of its node, which keeps sharing and cycles within one message.
+struct Message {
+    root: Slot,
+    nodes: Vec<Node>,
+    // the written value, as an identity for the scheduler trace only
+    #[cfg(abra_verif)]
+    src: Value,
+}
+
+#[derive(Clone, Copy)]
+enum Slot {
+    // int, float, bool, address
+    Immediate(Value),
+    Node(usize),
+}
+
+enum Node {
+    String(String),
+    Array(Vec<Slot>),
+    Struct(Vec<Slot>),
+    Variant(u16, Slot),
+    Channel(ChannelData),
+}
+
+impl Message {
+    fn new(val: Value, vm: &mut VmGreenThread) -> Message {
+        let mut message = Message {
+            root: Slot::Immediate(val),
+            nodes: vec![],
+            #[cfg(abra_verif)]
+            src: val,
+        };
+        message.root = message.snapshot(val, vm, &mut std::collections::HashMap::new());
+        message
+    }
+
+    // `seen` maps the address of every object visited so far to its node
+    fn snapshot(
+        &mut self,
+        val: Value,
+        vm: &mut VmGreenThread,
+        seen: &mut std::collections::HashMap<u64, usize>,
+    ) -> Slot {
+        if !val.1.is_pointer() {
+            return Slot::Immediate(val);
+        }
+        if let Some(index) = seen.get(&val.0) {
+            return Slot::Node(*index);
+        }
+        // the node gets its place before its children are visited: a cycle refers back to it
+        let index = self.nodes.len();
+        seen.insert(val.0, index);
+        self.nodes.push(Node::Struct(vec![]));
+        self.nodes[index] = match val.1 {
+            ValueTag::Int | ValueTag::Float | ValueTag::Bool | ValueTag::Addr => unreachable!(),
+            ValueTag::String => Node::String(val.view_string(vm).to_string()),
+            ValueTag::Array => {
+                let elems = &val.get_array(vm).data;
+                Node::Array(self.snapshot_all(elems, vm, seen))
+            }
+            ValueTag::Struct => {
+                let fields = val.get_struct(vm).get_fields();
+                Node::Struct(self.snapshot_all(fields, vm, seen))
+            }
+            ValueTag::Variant => {
+                let variant = val.get_variant(vm);
+                Node::Variant(variant.tag, self.snapshot(variant.val, vm, seen))
+            }
+            ValueTag::Channel => Node::Channel(unsafe { val.get_channel(vm) }.data.clone()),
+        };
+        Slot::Node(index)
+    }
+
+    fn snapshot_all(
+        &mut self,
+        values: &[Value],
+        vm: &mut VmGreenThread,
+        seen: &mut std::collections::HashMap<u64, usize>,
+    ) -> Vec<Slot> {
+        values
+            .iter()
+            .map(|val| self.snapshot(*val, vm, seen))
+            .collect()
+    }
+
+    // Rebuilds the value on the heap of the reading thread. All objects are allocated first and
+    // their children are filled in afterwards. The collector does not run in between (allocation
+    // only adds to the gc debt).
+    fn into_value(mut self, vm: &mut VmGreenThread) -> Value {
+        let placeholder = Value::from(0 as AbraInt);
+        let mut objects: Vec<Value> = Vec::with_capacity(self.nodes.len());
+        for node in self.nodes.iter_mut() {
+            objects.push(match node {
+                Node::String(s) => StringObject::new(std::mem::take(s), vm).into(),
+                Node::Array(elems) => ArrayObject::new(vec![placeholder; elems.len()], vm).into(),
+                Node::Struct(fields) => {
+                    StructObject::new(vec![placeholder; fields.len()], vm).into()
+                }
+                Node::Variant(tag, _) => EnumObject::new(*tag, placeholder, vm).into(),
+                Node::Channel(data) => ChannelObject::new_with_data(vm, data.clone()).into(),
+            });
+        }
+        let value_of = |slot: &Slot| match slot {
+            Slot::Immediate(v) => *v,
+            Slot::Node(index) => objects[*index],
+        };
+        for (node, object) in self.nodes.iter().zip(&objects) {
+            match node {
+                Node::Array(elems) => {
+                    let array = unsafe { object.get_array_mut(vm) };
+                    for (i, elem) in elems.iter().enumerate() {
+                        array.data[i] = value_of(elem);
+                    }
+                }
+                Node::Struct(fields) => {
+                    let fields_mut = unsafe { object.get_struct_mut(vm) }.get_fields_mut();
+                    for (i, field) in fields.iter().enumerate() {
+                        fields_mut[i] = value_of(field);
+                    }
+                }
+                Node::Variant(_, val) => unsafe {
+                    (*(object.0 as *mut EnumObject)).val = value_of(val)
+                },
+                Node::String(_) | Node::Channel(_) => {}
+            }
+        }
+        value_of(&self.root)
+    }
 }
 
 impl ChannelObject {
@@ -1499,10 +1622,7 @@ impl ChannelObject {
         ChannelObject::new_with_data(vm, Arc::new(Mutex::new(VecDeque::new())))
     }
 
-    fn new_with_data(
-        vm: &mut VmGreenThread,
-        data: Arc<Mutex<VecDeque<Value>>>,
-    ) -> *mut ChannelObject {
+    fn new_with_data(vm: &mut VmGreenThread, data: ChannelData) -> *mut ChannelObject {
         let header = ObjectHeader {
             kind: ObjectKind::Channel,
             visited: match &vm.gc_state {
@@ -1526,23 +1646,19 @@ impl ChannelObject {
         chan
     }
 
-    fn read_value(&self) -> Option<Value> {
+    fn read_message(&self) -> Option<Message> {
         let mut data = self.data.lock().unwrap();
         // TODO: it would be better to put this thread to sleep instead of constantly trying and failing to read from the channel
         data.pop_front()
     }
 
-    fn write_value(&self, val: Value) {
+    fn write_message(&self, message: Message) {
         let mut data = self.data.lock().unwrap();
-        data.push_back(val);
+        data.push_back(message);
     }
 
     fn copy(&self, vm: &mut VmGreenThread) -> Value {
         ChannelObject::new_with_data(vm, self.data.clone()).into()
-    }
-
-    fn header_ptr(&mut self) -> *mut ObjectHeader {
-        self as *mut Self as *mut ObjectHeader
     }
 
     fn nbytes(&self) -> usize {
@@ -2314,10 +2430,9 @@ impl VmGreenThread {
             Instr::ChannelRead => {
                 let chan = self.pop(); // TODO: use registers
                 let chan_obj = unsafe { chan.get_channel(self) };
-                let read_val = chan_obj.read_value();
-                match read_val {
-                    Some(read_val) => {
-                        let read_val = read_val.deep_copy(self);
+                match chan_obj.read_message() {
+                    Some(message) => {
+                        let read_val = message.into_value(self);
                         self.push(read_val)
                     } // TODO: use registers
                     None => {
@@ -2329,11 +2444,10 @@ impl VmGreenThread {
             Instr::ChannelWrite => {
                 let val = self.pop(); // TODO: use registers
                 let chan = self.pop(); // TODO: use registers
-                let chan = unsafe { chan.get_channel_mut(self) };
-
-                // TODO: write_barrier not necessary
-                self.write_barrier(chan.header_ptr(), val);
-                chan.write_value(val);
+                let chan = unsafe { chan.get_channel(self) };
+                // the message is a snapshot that no longer refers to this thread's heap
+                let message = Message::new(val, self);
+                chan.write_message(message);
             }
             Instr::ConstructStruct(n) => self.construct_struct(n as usize),
             Instr::ConstructArray(n) => self.construct_array(n as usize),
@@ -2670,12 +2784,9 @@ impl VmGreenThread {
                     }
                 }
                 ObjectKind::Channel => {
+                    // (the messages in the channel do not refer to any thread's heap)
                     let obj = unsafe { &*(header_ptr as *const ChannelObject) };
                     *batch = batch.saturating_sub(obj.nbytes());
-                    let data = obj.data.lock().unwrap();
-                    for elem in data.iter() {
-                        Self::mark(elem, &mut self.gray_stack, self.gc_visited);
-                    }
                 }
             }
         }
@@ -2938,7 +3049,7 @@ pub mod verif_sched {
                 let front = match t.value_stack.last() {
                     Some(v) if v.1 == super::ValueTag::Channel => {
                         let obj = unsafe { &*(v.0 as *const super::ChannelObject) };
-                        obj.data.lock().unwrap().front().copied()
+                        obj.data.lock().unwrap().front().map(|message| message.src)
                     }
                     _ => None,
                 };
@@ -3094,12 +3205,8 @@ pub mod verif_gc {
                         kids.extend(ptr_of(t, f));
                     }
                 }
-                ObjectKind::Channel => {
-                    let obj = unsafe { &*(*h as *const ChannelObject) };
-                    for f in obj.data.lock().unwrap().iter() {
-                        kids.extend(ptr_of(t, f));
-                    }
-                }
+                // the messages in a channel do not refer to any thread's heap
+                ObjectKind::Channel => {}
             }
             write!(s, "{}:{}:", *h as usize, marked as u8).unwrap();
             for (j, k) in kids.iter().enumerate() {
